@@ -105,4 +105,7 @@ def check(ctx: Ctx) -> None:
     # ---- selection sweep
     ahbsweep.report(ctx, ("C09.select", "C09.bare", "C12.order"), FILE)
     check_path(ctx, "C09.state", [f"{AHB_EVAL}.evaluate_ahb_expression_tree"], "the result of an AHB expression must not depend on earlier evaluations")
+    from ..purity import check_models_and_transformers
+
+    check_models_and_transformers(ctx, "C09.state", "AHB expression evaluation must not depend on earlier evaluations")
     ctx.assume("L2/L3; the reference splitting of refsem.parse_ahb was validated against the grammar rules decided in C02.cfg")
